@@ -887,6 +887,21 @@ class Interp(object):
             return self.exec_block(st.body, [s], ctx)
         if t is False:
             return self.exec_block(st.orelse, [s], ctx)
+        if isinstance(st.test, ast.UnaryOp) and isinstance(st.test.op, ast.Not) and not (forced and norm_text(st.test) in forced):
+            # `if not c: A else: B` is `if c: B else: A`: the decision recorded on the path is the one about c
+            node = ast.If(test=st.test.operand, body=st.orelse or [ast.Pass()], orelse=st.body)
+            ast.copy_location(node, st)
+            ast.fix_missing_locations(node)
+            return self.st_If(node, s, ctx)
+        if isinstance(st.test, ast.Compare) and len(st.test.ops) == 1 and isinstance(st.test.ops[0], (ast.NotEq, ast.IsNot)) and \
+                not (forced and norm_text(st.test) in forced):
+            # `if a != b: A else: B` is `if a == b: B else: A` (and `is not` likewise): one spelling of the decision per path
+            pos = ast.Compare(left=st.test.left, ops=[ast.Eq() if isinstance(st.test.ops[0], ast.NotEq) else ast.Is()],
+                              comparators=st.test.comparators)
+            node = ast.If(test=pos, body=st.orelse or [ast.Pass()], orelse=st.body)
+            ast.copy_location(node, st)
+            ast.fix_missing_locations(node)
+            return self.st_If(node, s, ctx)
         if isinstance(st.test, ast.BoolOp) and len(st.test.values) >= 2 and not (forced and norm_text(st.test) in forced):
             # `if A and B: X else: Y`  is  `if A: (if B: X else: Y) else: Y` ; `if A or B: X else: Y`  is  `if A: X else: (if B: X else: Y)`
             # - every branch decision of a path is then one atomic condition
@@ -1647,8 +1662,51 @@ class Interp(object):
                     return ModTable(b.origin + "." + name, node, self)
                 except Exception:
                     pass
+            folded = self._module_constant(b, name, node)
+            if folded is not None:
+                return folded
             return Rat.sym("%s.%s" % (b.origin, name), ("global",))
         return unk("binding", name)
+
+    def _module_constant(self, b, name, node):
+        """a module-level name bound to a constant expression (`_TWO_PI = 2 * math.pi`, `_EXPONENT = -5. / 3.`,
+        `_AXES = (-1, -2)`, `_G = gamma(5. / 6)`): the value of the expression, evaluated in the defining module.  Only closed
+        terms are accepted (no symbols, nothing unrecognised); anything else stays the opaque global it was."""
+        key = (b.origin, name)
+        cache = self.__dict__.setdefault("_modconst_cache", {})
+        if key in cache:
+            return cache[key]
+        cache[key] = None          # recursion guard
+        if not isinstance(node, (ast.BinOp, ast.UnaryOp, ast.Call, ast.Tuple, ast.List, ast.Name, ast.Attribute, ast.Subscript)):
+            return None
+        if any(isinstance(n, (ast.Lambda, ast.ListComp, ast.GeneratorExp, ast.DictComp, ast.SetComp, ast.Await, ast.Yield)) for n in ast.walk(node)):
+            return None
+        try:
+            mod = self.ix.module(b.origin)
+        except Exception:
+            return None
+
+        class _F(object):
+            pass
+        fi = _F()
+        fi.module, fi.fq, fi.name, fi.params, fi.kwonly, fi.cls = mod, b.origin + ":<module>", "<module>", [], [], None
+        try:
+            v = self.ev(node, {}, Ctx(fi, None, 0))
+        except AnalysisError:
+            return None
+        except Exception:
+            return None
+
+        def closed(x):
+            if isinstance(x, Rat):
+                return not has_unknown(x) and not any(isinstance(a, Sym) for a in x.atoms())
+            if isinstance(x, (tuple, list)) and not _is_slice(x):
+                return all(closed(y) for y in x)
+            return isinstance(x, (str, bool, int, float)) or x is None
+        if v is None or not closed(v):
+            return None
+        cache[key] = v
+        return v
 
     def ext_value(self, dotted):
         if dotted == "numpy.newaxis":
@@ -2778,6 +2836,16 @@ def _stack(I, a, k, e, env, ctx):
     return NotImplemented
 
 
+@ext("builtins.dict")
+def _dict(I, a, k, e, env, ctx):
+    # dict(name=value, ...) (optionally on top of one dict): the mapping itself, so that f(**d) binds by name
+    if not a or (len(a) == 1 and isinstance(a[0], dict)):
+        out = dict(a[0]) if a else {}
+        out.update(k)
+        return out
+    return NotImplemented
+
+
 @ext("builtins.int")
 def _int(I, a, k, e, env, ctx):
     if a and isinstance(a[0], Rat):
@@ -2821,6 +2889,13 @@ def _len(I, a, k, e, env, ctx):
                 return Rat.sym("ndim(%s)" % car[0], ("int",))
         return Rat.atom(Fn("ndim", (v,)))
     if a and isinstance(a[0], Rat):
+        if maybe_array(a[0]) and not has_unknown(a[0]):
+            # len(x) is x.shape[0]: one normal form for both spellings - where the extent has a name of its own (an array symbol,
+            # the size of a draw); a derived array keeps the opaque len(...)
+            r_ = I.shape_elem(a[0], 0)
+            ra_ = r_.single_atom() if isinstance(r_, Rat) else None
+            if isinstance(a[0].single_atom(), Sym) or not (isinstance(ra_, (Sym, Fn)) and (ra_.name.startswith("shape") or ra_.name.startswith("N["))):
+                return r_
         return Rat.atom(Fn("len", (a[0],)))
     return NotImplemented
 
@@ -3299,6 +3374,15 @@ def mk_getitem(o, idx):
     if isinstance(a, Fn) and a.name == "array" and len(a.args) == 1 and isinstance(a.args[0], tuple) and isinstance(idx, Rat) and \
             isinstance(pyconst(idx), int) and -len(a.args[0]) <= pyconst(idx) < len(a.args[0]) and isinstance(a.args[0][pyconst(idx)], Rat):
         return a.args[0][pyconst(idx)]          # item k of a stack written out item by item
+    if isinstance(a, Fn) and a.name == "setitem" and len(a.args) == 3 and isinstance(a.args[1], Rat) and isinstance(idx, Rat) and \
+            isinstance(a.args[0], Rat):
+        i_, j_ = pyconst(a.args[1]), pyconst(idx)
+        if isinstance(i_, int) and isinstance(j_, int) and (i_ < 0) == (j_ < 0):
+            # reading item j of a sequence whose item i was just replaced (constant indices counted from the same end)
+            if i_ == j_ and isinstance(a.args[2], Rat):
+                return a.args[2]
+            if i_ != j_:
+                return mk_getitem(a.args[0], idx)
     if a is None and isinstance(o, Rat) and isinstance(idx, Rat) and o.den_is_one() and len(o.num) == 1:
         # (c * x)[i] is c * x[i] for a numeric constant c
         (mono, coef), = o.num.items()
